@@ -152,7 +152,7 @@ package nfa
 //@   requires wfBT(b) && b.nfa != nil && len(haystack) <= 140737488355328 && (btAsciiOnly(b) ==> allASCIIb(haystack))
 //@   modifies b.internalState.*, family E:uint16
 //@ func (*BoundedBacktracker).SearchAtWithState
-//@   props C13 C07 C20
+//@   props C13 C07 C20 C02
 //@   requires wfBT(b) && b.nfa != nil && stampsOK(state) && 0 <= at && at <= len(haystack) && len(haystack) <= 140737488355328
 //@   requires btAsciiOnly(b) ==> allASCIIb(haystack)
 //@   modifies state.*, state.Visited[*]
@@ -174,7 +174,7 @@ package nfa
 //@   loop 2: decreases cap(state.Visited) - rangeindex
 
 //@ func (*BoundedBacktracker).SearchWithState
-//@   props C13 C07
+//@   props C13 C07 C02
 //@   requires wfBT(b) && b.nfa != nil && stampsOK(state) && len(haystack) <= 140737488355328
 //@   requires btAsciiOnly(b) ==> allASCIIb(haystack)
 //@   modifies state.*, state.Visited[*]
